@@ -459,7 +459,7 @@ pub fn run(ctx: &RunCtx) -> PropResult {
         run_generated(ctx, "storage-tree", ctx.tier.pick(200, 6000), storage_tree_strategy, runf, &crate::props::history::sample_case, &mut report);
     }
     run_replays::<IdxCase, _>(ctx, "index", &ctx.verif_dir.join("replays").join("C09"), run_idx, &mut report);
-    run_generated(ctx, "index", ctx.tier.pick(3000, 120_000), idx_strategy, run_idx, &sample, &mut report);
+    run_generated(ctx, "index", ctx.tier.pick(6000, 120_000), idx_strategy, run_idx, &sample, &mut report);
     let sweep = sweep_cases(ctx.tier == Tier::Thorough);
     run_enumerated(ctx, "index-sweep", sweep, run_idx, &sample, &mut report);
     PropResult {
